@@ -388,7 +388,7 @@ theorem InvA.closed : Closed InvA where
   frame := fun _ _ h f => h.frame f
   refresh := fun _ h => h.refresh
   ctxEmpty := fun _ i h => h.ctxEmpty i
-  dropCtx := fun _ i h hv he => h.dropCtx i hv he
+  dropCtx := fun _ i h hv he _ => h.dropCtx i hv he
   prepRead := fun s i h => h.setQ i (fun _ => (qPrepareRead s.cfg (s.th i).q).1) (qPrepareRead_same _ _)
   commitRead := fun s i h => h.setQ i (fun t => qCommitRead s.cfg t.q) (qCommitRead_same _ _)
   readOne := fun _ i st rest h hq _ => h.readOne i st rest hq
